@@ -80,6 +80,30 @@ def rule_placeholder(ctx, fx, config):
               "the placeholder for a cyclic alias does not carry the target's anchor id (anchor fields seen on that edge: %s): a back-reference that crosses another recursive node of the same type is silently rewired to that node" % sorted(set(seen)), config, ctx.where(ni, sb))
 
 
+def rule_context_stack(ctx, fx, config):
+    """CONTEXT: the visitors find \"their\" anchor as the innermost entry of the context stack, so entering an anchored wrapper
+    pushes its (kind, id) *unconditionally* and leaving pops exactly once, also when the same anchor is already open further
+    out (a recursion edge to a non-innermost ancestor is otherwise rewired to the nearest enclosing anchored node)."""
+    ac = fx.fn("anchor_store::with_anchor_context")
+    ctx.saw(ac)
+    okpush = False
+    for g in fx.closures_of(ac):
+        pushes = [b for b, t in g.calls() if last_seg(fx.callee_decl(t)) == "push"]
+        bumps = [b for b, t in g.calls() if last_seg(fx.callee_decl(t)) in ("or_insert", "entry")]
+        if pushes:
+            okpush = must_pass(g, [0], pushes) and bool(bumps) and must_pass(g, [0], bumps)
+    ctx.check(okpush, "CONTEXT", "C14:CONTEXT:push-unconditional", "entering an anchored wrapper always pushes its id and bumps its in-progress count",
+              "with_anchor_context pushes the context entry (or bumps the in-progress count) only under a condition: while the same anchor is already open the visitor looks at the wrong innermost entry, and recursion edges are rewired to the nearest enclosing anchored node", config, ctx.where(ac))
+    gd = fx.fn("<anchor_store::Guard as std::ops::Drop>::drop")
+    ctx.saw(gd)
+    okpop = False
+    for g in fx.closures_of(gd):
+        pops = [b for b, t in g.calls() if last_seg(fx.callee_decl(t)) == "pop"]
+        if pops:
+            okpop = must_pass(g, [0], pops)
+    ctx.check(okpop, "CONTEXT", "C14:CONTEXT:pop-unconditional", "leaving an anchored wrapper always pops one context entry", "Guard::drop pops the context stack only under a condition (push and pop no longer pair one to one)", config, ctx.where(gd))
+
+
 def rule_anchor_consumed(ctx, fx, config):
     """ANCHOR: the serializer stages `&aN` for the *next node*.  Every path that writes a scalar consumes the staged anchor
     before it writes (write_scalar_prefix_if_anchor), otherwise the anchor sticks to whatever node is written next and
@@ -129,6 +153,7 @@ def run(ctx):
         fx = ctx.facts(config)
         rule_placeholder(ctx, fx, config)
         rule_anchor_consumed(ctx, fx, config)
+        rule_context_stack(ctx, fx, config)
         kinds_adt = [v["name"] for v in fx.adt("anchor_store::AnchorKind")["variants"]]
         store_fields = [x["name"] for x in fx.adt("anchor_store::AnchorStore")["variants"][0]["fields"]]
         ctx.check(sorted(snake(k) for k in kinds_adt) == sorted(store_fields), "TABLE", "C14:TABLE:kinds-vs-store-fields", "one store field per AnchorKind (%s)" % store_fields,
